@@ -41,6 +41,7 @@ type c05Env struct {
 	pl        int
 	wps       int
 	mem       bool
+	skip      bool
 	crashMode string
 	root      string
 	scratch   string
@@ -60,6 +61,8 @@ func (e *c05Env) start(root string, mem bool) (*store.CAStore, error) {
 		UploadCleanup: store.CleanupConfig{Disabled: true},
 		CacheCleanup:  store.CleanupConfig{Disabled: true},
 		WritePartSize: e.wps,
+
+		SkipHashVerification: e.skip,
 	}
 	if mem {
 		cfg.MemoryCache = store.MemoryCacheConfig{Enabled: true, MaxSize: 1 << 20, DrainWorkers: 1}
@@ -189,6 +192,8 @@ func c05Err(err error) string {
 		return "notfound"
 	case strings.Contains(err.Error(), "verify digest"):
 		return "verifyfail"
+	case strings.Contains(err.Error(), "file is persisted"):
+		return "persisted"
 	}
 	return "err-other"
 }
@@ -256,6 +261,45 @@ func (e *c05Env) refresh(cas *store.CAStore, mem bool, name string, b []byte) st
 	return c05Err(err)
 }
 
+// metareq: the store calls of origin/blobserver.getMetaInfo for a backend that does not hold the blob (the
+// handler itself runs in the `ocs` harness; linking the server into this binary would double the run time):
+// a sidecar that decodes is served; else a cached blob (GetCacheFileStat) gets its metainfo generated
+// (metainfogen.Generate) and read again; a blob that is not cached is answered 404.
+func (e *c05Env) metareq(cas *store.CAStore, name string) (string, string) {
+	serve := func(tm *metadata.TorrentMeta) (string, string) {
+		b, err := tm.Serialize()
+		if err != nil {
+			return "500", "-"
+		}
+		if i := e.idxOfName(name); i >= 0 && bytes.Equal(b, e.mis[i]) {
+			return "200", "valid"
+		}
+		return "200", "wrong"
+	}
+	var tm metadata.TorrentMeta
+	err := cas.GetCacheFileMetadata(name, &tm)
+	if err == nil {
+		return serve(&tm)
+	}
+	if !os.IsNotExist(err) {
+		return "500", "-"
+	}
+	if _, serr := cas.GetCacheFileStat(name); serr != nil {
+		return "404", "-"
+	}
+	d, derr := core.NewSHA256DigestFromHex(name)
+	if derr != nil {
+		return "400", "-"
+	}
+	if gerr := metainfogen.Fixture(cas, e.pl).Generate(d); gerr != nil {
+		return "500", "-"
+	}
+	if err := cas.GetCacheFileMetadata(name, &tm); err != nil {
+		return "500", "-"
+	}
+	return serve(&tm)
+}
+
 func (e *c05Env) tree(root string) string {
 	return "fs=" + verifh.List(c05CanonAll(verifh.DumpTree(root)))
 }
@@ -285,6 +329,13 @@ func (e *c05Env) recover(root string) []string {
 		if i < 0 {
 			continue
 		}
+		// the origin's metainfo request, with a backend that does not hold the blob
+		var mr, mv string
+		if p := verifh.Protect(func() { mr, mv = e.metareq(cas, n) }); p != "" {
+			out = append(out, "panic")
+			continue
+		}
+		out = append(out, "mr="+mr, "mv="+mv)
 		var rf string
 		if p := verifh.Protect(func() {
 			rf = e.refresh(cas, false, n, e.blobs[i])
@@ -401,6 +452,8 @@ func c05Exec(t *verifh.T, c verifh.Case, caseIdx int, base string, plans map[[2]
 			e.wps = n
 		case "mem":
 			e.mem = n == 1
+		case "skip":
+			e.skip = n == 1
 		case "crash":
 			e.crashMode = kv[1]
 		}
@@ -603,6 +656,12 @@ func c05Exec(t *verifh.T, c verifh.Case, caseIdx int, base string, plans map[[2]
 					return
 				}
 				bracket(func() { obs = []string{e.getmeta(e.cas, e.names[bi])} })
+			case "delete":
+				if bi < 0 {
+					obs = []string{"badop"}
+					return
+				}
+				bracket(func() { obs = []string{c05Err(e.cas.DeleteCacheFile(e.names[bi]))} })
 			case "restart":
 				e.cas.Close()
 				bracket(func() {
@@ -690,7 +749,8 @@ func c05Cases() []verifh.Case {
 		}
 		ops = append(ops, op("commit", "u1", "b0"), op("persist", "b0"), op("genmeta", "b0"), op("getmeta", "b0"),
 			op("restart"), op("read", "b0"), op("getmeta", "b0"), op("genmeta", "b0"), op("persist", "b0"),
-			op("refresh", "b0", verifh.Hex(blob)), op("refresh", "b1", verifh.Hex(other)), op("restart"))
+			op("refresh", "b0", verifh.Hex(blob)), op("refresh", "b1", verifh.Hex(other)), op("restart"),
+			op("delete", "b0"), op("delete", "b1"), op("read", "b1"), op("refresh", "b1", verifh.Hex(other)), op("restart"), op("delete", "b1"))
 		out = append(out, verifh.Case{Cfg: cfg, Ops: ops})
 		// a second upload of a blob that is already cached, and an upload whose bytes do not match
 		ops2 := [][]string{op("refresh", "b0", verifh.Hex(blob)), op("ustart", "u2"), op("uwrite", "u2", "0", verifh.Hex(blob)),
@@ -705,6 +765,15 @@ func c05Cases() []verifh.Case {
 		cfg := c05Cfg([][]byte{blob, other}, 1+r.Intn(3), r.Intn(3), 1)
 		ops := [][]string{op("refresh", "b0", verifh.Hex(blob)), op("getmeta", "b0"), op("refresh", "b1", verifh.Hex(blob)),
 			op("refresh", "b0", verifh.Hex(blob)), op("restart"), op("read", "b0")}
+		out = append(out, verifh.Case{Cfg: cfg, Ops: ops})
+	}
+	// SkipHashVerification: outside the property (stated assumption); the model follows, monitors are off
+	for c := 0; c < verifh.Scale(2, 20); c++ {
+		blob := c05Blob(r, 2+r.Intn(4))
+		other := c05Blob(r, 7)
+		cfg := c05Cfg([][]byte{blob, other}, 2, r.Intn(2), 0, "skip=1", "crash=off")
+		ops := [][]string{op("ustart", "u1"), op("uwrite", "u1", "0", verifh.Hex(other)), op("commit", "u1", "b0"), op("read", "b0"),
+			op("restart"), op("read", "b0"), op("ustart", "u2"), op("uwrite", "u2", "0", verifh.Hex(other)), op("commit", "u2", "b1"), op("genmeta", "b1")}
 		out = append(out, verifh.Case{Cfg: cfg, Ops: ops})
 	}
 	// random histories
@@ -765,6 +834,11 @@ func c05Cases() []verifh.Case {
 				b, _ := bt()
 				ops = append(ops, op(r.Pick("read", "getmeta"), b))
 			case 10:
+				if r.Chance(1, 2) {
+					b, _ := bt()
+					ops = append(ops, op("delete", b))
+					break
+				}
 				ops = append(ops, op("restart"))
 				open = nil
 			default:
@@ -820,7 +894,9 @@ func c05Cases() []verifh.Case {
 		for j := 0; j < 1+r.Intn(4); j++ {
 			i := r.Intn(nb)
 			b := "b" + strconv.Itoa(i)
-			switch r.Intn(6) {
+			switch r.Intn(7) {
+			case 6:
+				ops = append(ops, op("delete", b))
 			case 0:
 				ops = append(ops, op("getmeta", b))
 			case 1:
